@@ -64,6 +64,33 @@ CHECKS.update({
    design="4/C18"),
 })
 
+CHECKS.update({
+ "C04": dict(
+   level="model_checking",
+   text="Instances.tla holds the reference (least fixpoint of 'the code of an instance mentions an instance', type-term identity of instances, the observable behaviour Exec of the rendered program) and an implementation-shaped model of typeparams.Collector (Scan, Finish over a Go map with every iteration order, propagate with the unprocessed index, addInstance with methods). TLC checks on every program of an exhaustive small family and on VERIF_SEED-selected programs of the full bounds (<= 3 generic declarations incl. types local to generic functions, <= 2 type parameters, <= 2 uses per body, packages in both import directions, type expressions nested <= 2) that the collected set is the fixpoint for every iteration order and that the instance map agrees with equality of type terms, and emits the scenarios. Every scenario is rendered as a multi-package Go module, compiled by the working tree and run: the printed log (zero values, arithmetic width, method results, blocking methods, type identity by ==, map key, type switch, assertion) must equal Exec, the compiler's real instance sets and archive declarations must contain the fixpoint, the real set order must be one of the model's final orders (else MODEL-DRIFT). Reference toolchain as specification guard. Hand-written witness programs add shapes outside the declaration space.",
+   note="Trusted: TLC, Node, native Go as guard, println of <= 32-bit integers. Struct types with one pointer-receiver method, functions, local struct types; constraints any and one numeric constraint. Two known compiler failures on valid generic programs are listed as findings.",
+   technique="TLA+ model of the generic instance collector + reference fixpoint (Instances.tla), TLC-enumerated programs replayed on compiled code, real instance sets compared with the model",
+   design="4/C04"),
+ "C11": dict(
+   level="model_checking",
+   text="The documented Go<->JavaScript mapping of package js is a TLA+ specification (JsMapping.tla: Externalize/Internalize over tagged Go and JavaScript values, numbers as exact dyadic values rounded to 53/24 bits, strings UTF-8<->UTF-16 through Utf8.tla; JsMappingState.tla: wrapper cache and callback guard as a state machine with invariants). TLC checks round-trip identity on every representable enumerated value, box transparency, number and UTF-16 laws, and enumerates every (type, value, route, accessor) case inside the bounds (143 types with value pools; routes: Set/Get, arguments of Call/Invoke/New, results and parameters of exposed functions, js-tagged fields, MakeWrapper, Interface(), accessors Int/Int64/Uint64/Float/Bool/String/Length/Index/Delete) with the predicted descriptor; every case is replayed on programs compiled by the working tree (a JavaScript describe() helper and generated Go printers give canonical descriptors). Callback guard: Go callbacks run by a real setTimeout that block must fail with the documented error and leave the scheduler intact.",
+   note="No native guard exists (gc cannot build package js): the guard is a second independent transcription of the documentation in Go; a case on which the two transcriptions disagree is discarded and counted (0 on this tree). Results the documentation leaves undefined are recorded, not judged (typed-array memory sharing, synchronous callbacks from inside a goroutine). time.Time<->Date and DOM classes are not covered.",
+   technique="TLA+ reference semantics of the documented conversion (JsMapping.tla) + TLC scenario enumeration replayed on compiled programs; TLC-checked state machine for wrapper cache and callback guard",
+   design="4/C11"),
+ "C12": dict(
+   level="model_checking",
+   text="Overlay.tla is the reference semantics of the documented overlay merge (doc/pargma.md and the comments of parseAndAugment: override, keep-original, purge incl. methods of purged types, override-signature, import pruning, init never overridden); OverlayScen.tla makes TLC enumerate pairs (original side, overlay side) over a small name universe with kinds, receivers, grouped and multi-name specs and directives on declarations and specs, checks the theorems of the reference on every pair and emits the predicted item set Merged. Each pair is rendered as two Go files with provenance markers, parsed and run through the REAL augmentOverlayFile / augmentOriginalImports / augmentOriginalFile (guarded export build.VerifAugment, same order as parseAndAugment); the item set read back from the resulting ASTs must equal Merged and, when the reference says the pair is consistent, the merged package must type-check with go/types. A last phase merges every overlay package of compiler/natives with its GOROOT original and checks version-independent structural invariants.",
+   note="Trusted: TLC, go/parser and go/types as guard of consistency. Known findings listed with classifiers (const groups with iota, free-floating linkname directives).",
+   technique="TLA+ reference semantics of the overlay merge (Overlay.tla) + TLC pair enumeration replayed on the real augmentation functions",
+   design="4/C12"),
+ "C14": dict(
+   level="model_checking",
+   text="Utf8.tla is the reference semantics of Go strings as byte sequences (UTF-8 decoding given declaratively and as the table of well-formed sequences - Utf8Validate.tla checks the two against each other for every code point -, encoding, range, conversions, index/slice/compare/concat/copy/append, key identity); Utf8Scen.tla enumerates byte strings over a boundary alphabet (every string up to the configured length), boundary runes and slice index pairs with the predicted results and checks properties of the reference on each. The scenarios are rendered as table-driven Go programs (every string once as a literal and once built at run time), compiled by the working tree, run under Node and compared line by line; range loops are also run with other decoding work inside the body. Reference toolchain as specification guard.",
+   note="Trusted: TLC, Node, native Go as guard, println of ASCII. Two known findings (s[lo:] beyond len, string(int64) high word).",
+   technique="TLA+ reference semantics of UTF-8 strings (Utf8.tla) + TLC scenario enumeration replayed on compiled code",
+   design="4/C14"),
+})
+
 NOT_YET = "check not built yet in this round (planned in DESIGN.md section 9)"
 ALL = ["C%02d" % i for i in range(1, 21)]
 
@@ -105,6 +132,6 @@ def main():
         f.write("\n")
 
 NA = {}
-HOOK_COMMITS = ["a1f8310"]
+HOOK_COMMITS = ["a1f8310", "a00bef2"]
 if __name__ == "__main__":
     main()
